@@ -374,6 +374,9 @@ func leastConnsBalance(backs BackendList) (BackendList, error) {
 }
 
 func randomBalance(backs BackendList) (*backend.BfeBackend, error) {
+	if len(backs) == 0 {
+		return nil, fmt.Errorf("rr_bal:all backend is down")
+	}
 	i := rand.Int() % len(backs)
 	return backs[i].backend, nil
 }
